@@ -131,11 +131,17 @@ SIGNATURES["C26"] = [("function-ingredient-not-initialised-after-restore", sig_c
 SIGNATURES["C18"] = SIGNATURES["C13"]
 
 
-def classify(pid, job, job_trace_lines):
+# signatures that identify the violation itself (its detail must carry the marker), not the whole job
+DETAIL_MARKER = {"function-ingredient-not-initialised-after-restore": "cannot be accessed before calling `init`"}
+
+
+def classify(pid, job, job_trace_lines, detail=""):
     """Return the signature name matched by this job's trace for property pid, or None."""
     ops = op_window(job_trace_lines)
     for name, fn in SIGNATURES.get(pid, []):
         try:
+            if name in DETAIL_MARKER and DETAIL_MARKER[name] not in detail:
+                continue
             if fn(job, ops):
                 return name
         except Exception:
